@@ -143,6 +143,7 @@ func (c RawConfiguration) handleCorrectableCall(ctx context.Context, corr *Corre
 		for _, n := range c {
 			defer n.channel.deleteRouter(state.md.MessageID)
 		}
+		defer verifPoint("cor.exit", nil)
 	}
 
 	for {
